@@ -2085,8 +2085,11 @@ fn find_required_sections<'data, A: Arch>(
     }
 
     let mut errors: Vec<Error> = take(resources.errors.lock().unwrap().as_mut());
+    // The order in which errors were pushed depends on thread scheduling. Sort them so that we
+    // report the same one every time.
+    errors.sort_by_cached_key(|e| e.to_string());
     // TODO: Figure out good way to report more than one error.
-    if let Some(error) = errors.pop() {
+    if let Some(error) = errors.into_iter().next() {
         return Err(error);
     }
 
